@@ -48,7 +48,29 @@ func script(seed int64, idx int) {
 	faults := 0
 	nSteps := 6 + rng.Intn(10)
 	for st := 0; st < nSteps; st++ {
-		switch x := rng.Intn(22); {
+		switch x := rng.Intn(23); {
+		case x == 22: // re-observation exactly at the depth boundary: one block short, then deep enough
+			cl := []uint8{1, 2, 3, 5, 10}[rng.Intn(5)]
+			var blk *alphsim.Block
+			var tx string
+			w.Sim.Mutate("emit-for-boundary-reobservation", func(s *alphsim.Sim) {
+				blk = w.NewBlock(s, false)
+				tx, _ = w.EmitTx(s, blk, []string{"transfer", "attest"}[rng.Intn(2)], cl, false)
+				s.SetHeight(blk.Height + int32(cl) - 1)
+			})
+			w.Tr(fmt.Sprintf("emit tx %s (consistency %d) in block %s height %d; chain height set to %d: one block short", tx[:8], cl, blk.Hash[:8], blk.Height, blk.Height+int32(cl)-1))
+			if !wait(2) {
+				break
+			}
+			w.Tr("reobserve " + tx[:8] + " (one block short of its consistency level)")
+			if !w.H.Reobserve(tx, 25*time.Second) {
+				vlib.CFinding("reobserve:request-not-handled-within-watchdog", map[string]interface{}{"script": desc, "trace": w.Trace})
+				return
+			}
+			vlib.CCount("reobservation_requests", 1)
+			vlib.CCount("reobservations_one_block_short", 1)
+			w.Sim.Mutate("advance", func(s *alphsim.Sim) { s.SetHeight(s.Height + 1) })
+			w.Tr("advance height by 1")
 		case x == 20: // one polling round spans several pages and a later page request fails once
 			n := page + 1 + rng.Intn(3)
 			if page == 100 {
@@ -100,7 +122,7 @@ func script(seed int64, idx int) {
 			w.Sim.Mutate("emit", func(s *alphsim.Sim) {
 				b := w.NewBlock(s, fresh)
 				for i := 0; i < n; i++ {
-					kind := []string{"transfer", "transfer", "attest", "attest-mismatch", "attest-bad-token", "foreign-sender", "other"}[rng.Intn(7)]
+					kind := []string{"transfer", "transfer", "attest", "attest-mismatch", "attest-bad-token", "attest-long-name", "foreign-sender", "other"}[rng.Intn(8)]
 					cl := cls[rng.Intn(len(cls))]
 					tx, _ := w.EmitTx(s, b, kind, cl, rng.Intn(3) == 0)
 					w.Tr(fmt.Sprintf("emit %s cl=%d fresh=%v tx=%s block=%s height=%d", kind, cl, fresh, tx[:8], b.Hash[:8], b.Height))
